@@ -56,6 +56,17 @@ def quiet():
 
 
 def _worker_init():
+    # a worker must not outlive its check: if the parent is killed (an outer `timeout`, a kill
+    # from the operator) while a worker is busy in library code, the kernel takes the worker too
+    try:
+        import ctypes
+        import signal as _signal
+
+        ctypes.CDLL("libc.so.6", use_errno=True).prctl(1, int(_signal.SIGKILL))  # PR_SET_PDEATHSIG
+        if os.getppid() == 1:
+            os._exit(0)
+    except Exception:
+        pass
     setup_env()
     quiet()
 
